@@ -174,7 +174,7 @@ var c03Alphabet = []string{"(", ")", "[", "]", "'", "#'", "#^", "\"", ";", " ", 
 
 func c03Stressor(r *fw.RNG) (string, string) {
 	n := []int{1000, 20000, 100000, 1000000}[r.Intn(4)]
-	switch r.Intn(34) {
+	switch r.Intn(37) {
 	case 0:
 		return "deep-parens", strings.Repeat("(", n)
 	case 1:
@@ -229,6 +229,31 @@ func c03Stressor(r *fw.RNG) (string, string) {
 		return "long-string", "\"" + strings.Repeat("\\n", n/2) + "\""
 	case 23:
 		return "nested-load-string", "(defun l (n) (load-string (format-string \"(l {})\" (+ n 1))))\n(l 0)"
+	case 34, 35, 36:
+		// bounded by a context ONLY (no step budget; the class name selects that and a
+		// 200 ms deadline): a counting loop of 5*10^6 turns, seconds of work, sitting in
+		// every position of the body and binding forms; it must be cut short (decided by
+		// the number of turns that ran, not by elapsed time)
+		work := "(dotimes (i 5000000) (set 'turns (+ turns 1)))"
+		positions := []struct{ name, form string }{
+			{"toplevel", work},
+			{"let-nonfinal", "(let ([x 1]) " + work + " x)"},
+			{"let-final", "(let ([x 1]) x " + work + ")"},
+			{"let-init", "(let ([x " + work + "]) x)"},
+			{"let*-init", "(let* ([a 1] [b " + work + "]) b)"},
+			{"let*-nonfinal", "(let* ([a 1]) " + work + " a)"},
+			{"flet-nonfinal", "(flet ((h (x) x)) " + work + " (h 1))"},
+			{"labels-nonfinal", "(labels ((h (x) x)) " + work + " (h 1))"},
+			{"macrolet-nonfinal", "(macrolet ((m (x) x)) " + work + " (m 1))"},
+			{"function-nonfinal", "(defun f () " + work + " 1) (f)"},
+			{"lambda-in-map", "(map 'list (lambda (x) " + work + " x) '(1))"},
+			{"handler-body", "(handler-bind ((my-err (lambda (c &rest a) 0))) " + work + " 1)"},
+			{"progn-in-let-nonfinal", "(let ([x 1]) (progn " + work + " 2) x)"},
+			{"cond-test", "(cond (" + work + " 1) (else 2))"},
+			{"nested-let-nonfinal", "(let ([x 1]) (let ([y 2]) " + work + " y) x)"},
+		}
+		k := fw.Pick(r, positions)
+		return "ctxonly-runaway:" + k.name, "(set 'turns 0)\n" + k.form
 	case 30, 31, 32, 33:
 		// refused, then used: under a lowered allocation cap (the class name selects it) a
 		// mutating or constructing operation is refused; whatever it was applied to must
@@ -363,8 +388,23 @@ func c03Source(w *fw.W, idx int) {
 	if strings.Contains(class, "lowcap-") {
 		opts.MaxAlloc = 8 // a host-lowered per-operation allocation cap
 	}
+	ctxOnly := strings.Contains(class, "ctxonly-")
+	if ctxOnly {
+		opts.MaxSteps = 0
+		cancel()
+		ctx, cancel = context.WithTimeout(context.Background(), 200*time.Millisecond)
+		defer cancel()
+	}
 	rr := rt.New(opts)
 	v := rr.Env.LoadStringContext(ctx, "c03", string(src))
+	if ctxOnly {
+		turns := rr.Env.LoadString("c03-turns", "turns")
+		if v.Type != lisp.LError || v.Str != "context-cancelled" || (turns.Type == lisp.LInt && turns.Int >= 5000000) {
+			w.Violation("deadline-ignored:"+class, fmt.Sprintf("a program bounded only by a 200 ms context deadline ran %v of 5000000 loop turns and ended with %s", turns, trunc(v.String(), 200)), string(src))
+			return
+		}
+		w.Max("ctxonly_max_turns_before_cancellation", int64(turns.Int))
+	}
 	w.Eval(1)
 	w.Logf("class %s source (%d bytes): %q\n=> %s", class, len(src), trunc(string(src), 600), trunc(v.String(), 400))
 	if lisp.IsInternalPanic(v) {
